@@ -81,6 +81,16 @@ func init() {
 			}}
 			raceItems = append(raceItems, it)
 		}
+		// actions that begin with a comment (the generator emits them in a different form)
+		for _, fl := range [][]string{nil, {"-zip"}} {
+			cg := gram.WithRecActions(gram.Mk("S: l S r | x | S x"))
+			for i := range cg.Alts {
+				cg.Alts[i].Action = "// alternative " + fmt.Sprint(i) + "\n\t" + cg.Alts[i].Action
+			}
+			it := corp.NewItem("CommentAct", cg, fl...)
+			it.RtImp = true
+			raceItems = append(raceItems, it)
+		}
 		for i, it := range c.Items {
 			if tier == "thorough" || i < 8 {
 				raceItems = append(raceItems, it)
